@@ -33,7 +33,10 @@ Theorem C12_code_exceptions :
   (* value[field] on a non-mapping and hash(tag) of an unhashable value raise TypeError: caught right there, and never
      by the handlers around the variant call *)
   /\ catches non_mapping_handler [ETypeError] = true /\ catches hash_handler [ETypeError] = true
-  /\ catches key_lookup_handler [ETypeError] = false /\ catches variant_call_handler [ETypeError] = false.
+  /\ catches key_lookup_handler [ETypeError] = false /\ catches variant_call_handler [ETypeError] = false
+  (* the call of the selected variant sits OUTSIDE the regions guarded by variant_call_handler / retry_handler (fix
+     C12-variant-keyerror-misreported): a KeyError of the variant surfaces, Discr.field_body has no OKeyErr clause *)
+  /\ variant_call_guarded = false.
 Proof. vm_compute. repeat split. Qed.
 Print Assumptions C12_code_exceptions.
 
@@ -41,5 +44,5 @@ Print Assumptions C12_code_exceptions.
 Example C12_code_variants_nonvacuous :
   let ops := [Define [] [] [] [] false; Define [0] [] [] [] false; Define [0] [] [] [] false; Define [1; 2] [] [] [] false; Define [1] [] [] [] false] in
   iter_all_subclasses (S (length (defs ops))) (subclasses_of (defs ops)) 0 = [1; 3; 4; 2; 3]
-  /\ variants (defs ops) (Site [0] true true false false false false 0 0) = [1; 3; 4; 2; 3; 0].
+  /\ variants (defs ops) (Site [0] true true false false false false 0 0 false) = [1; 3; 4; 2; 3; 0].
 Proof. vm_compute. split; reflexivity. Qed.
